@@ -747,12 +747,14 @@ func (t *Topic) handleLeaveRequest(msg *ClientComMessage, sess *Session) {
 		}
 	}
 
-	if t.isInactive() {
-		if !asUid.IsZero() && msg.init {
+	if t.isInactive() && msg.init {
+		if !asUid.IsZero() {
 			sess.queueOut(ErrLockedReply(msg, now))
 		}
 		return
 	}
+	// A session which is being dropped (!msg.init) is unlinked even if the topic is paused: the topic
+	// becomes active again when its deletion fails and must not keep the dead session.
 
 	// User wants to leave and unsubscribe.
 	if msg.init && msg.Leave.Unsub {
